@@ -184,6 +184,10 @@ SIGMA_FNS = {
     "const": lambda t, s: torch.full_like(s, 0.2),
     "time": lambda t, s: torch.full_like(s, 0.2) + 0.5 * t,
     "spot": lambda t, s: 0.4 / (1 + s.abs()),
+    # time-only volatility functions that do not return a per-path tensor
+    "time_0dim": lambda t, s: 0.2 + 0.5 * t,                     # 0-dim tensor
+    "time_float": lambda t, s: 0.2 + 0.5 * float(t),             # python float
+    "time_1elem": lambda t, s: (0.2 + 0.5 * t).reshape(1),       # (1,)-tensor
 }
 
 # admissible parameter sets per generator: [default, high volatility / vol-of-vol, low variance ...]
@@ -206,7 +210,8 @@ PARAMS = {
                       "jump_up_prob": 0.3, "dt": 1 / 12}, {"jump_up_prob": 1.0, "jump_per_year": 1.0}],
     "rough_bergomi": [{}, {"alpha": -0.1, "rho": 0.5, "eta": 3.0, "xi": 0.01},
                       {"alpha": -0.45, "rho": 0.0, "eta": 0.5, "xi": 0.0004}],
-    "local_volatility": [{"sigma_fn": "const"}, {"sigma_fn": "time", "dt": 1 / 12}, {"sigma_fn": "spot"}],
+    "local_volatility": [{"sigma_fn": "const"}, {"sigma_fn": "time", "dt": 1 / 12}, {"sigma_fn": "spot"},
+                         {"sigma_fn": "time_0dim"}, {"sigma_fn": "time_float"}, {"sigma_fn": "time_1elem"}],
 }
 # non-default initial values per series kind (non-dyadic on purpose: rounding is observable)
 INIT_VALUES = {
@@ -229,7 +234,7 @@ def uniform_p(gen, params):
 
 
 def init_kwargs(form, values):
-    if form == "default":
+    if form in ("default", "subclass"):
         return {}
     if form == "tuple":
         return {"init_state": tuple(float(v) for v in values)}
@@ -253,6 +258,8 @@ def requested_init(kind, name, params, form, values):
     if form == "default":
         spec = SC.GENERATORS[name] if kind == "gen" else SC.INSTRUMENTS[name]
         return list(spec["init"](params))
+    if form == "subclass":        # a user subclass overriding default_init_state (documented extension point)
+        return [float(v) for v in values]
     st = init_kwargs(form, values)["init_state"]
     return [st] if form.startswith("bare") else list(st)
 
@@ -311,7 +318,11 @@ def call_real(block, n_paths, dtype, rng):
         params["sigma_fn"] = SIGMA_FNS[params["sigma_fn"]]
     if block.get("engine"):
         params["engine"] = make_engine(block["engine"])
-    inst = getattr(I, name)(dtype=dtype, **params)
+    cls = getattr(I, name)
+    if block["init"]["form"] == "subclass":
+        state = tuple(float(v) for v in block["init"]["values"])
+        cls = type(name + "WithOwnDefault", (cls,), {"default_init_state": property(lambda self: state)})
+    inst = cls(dtype=dtype, **params)
     if rng is not None:
         rng.own_engine(inst)
     inst.simulate(n_paths=n_paths, time_horizon=_steps_to_horizon(n_steps - 1, inst.dt), **ikw)
@@ -323,7 +334,7 @@ def call_real(block, n_paths, dtype, rng):
 
 
 SOBOL_SEED = 7
-ENGINES = ("antithetic", "sobol", "sobol_class")
+ENGINES = ("antithetic", "sobol", "sobol_class", "sobol_default")
 ENGINE_TARGETS = (("gen", "brownian"), ("gen", "geometric_brownian"), ("gen", "merton_jump"), ("gen", "kou_jump"),
                   ("inst", "MertonJumpStock"), ("inst", "KouJumpStock"))     # everything that accepts engine=
 
@@ -339,6 +350,8 @@ def make_engine(name):
         return functools.partial(S.randn_sobol_boxmuller, seed=SOBOL_SEED)
     if name == "sobol_class":
         return RandnSobolBoxMuller(scramble=True, seed=SOBOL_SEED)
+    if name == "sobol_default":  # default constructor: unscrambled, the first Sobol point is exactly (0, 0)
+        return RandnSobolBoxMuller()
     raise HarnessError(f"engine {name}")
 
 
@@ -762,6 +775,9 @@ def evaluate_engine(block):
     req = None if block["dtype"] is None else DT[block["dtype"]]
     N = block["n_paths"]
     tag = f"@engine_{block['engine']}"
+    eff0 = req if req is not None else DT[block["default"]]
+    if eff0 in SC.HALF:
+        tag += ":" + str(eff0).split(".")[-1]      # half precisions get their own class
 
     def run(b, dtype, owned):
         rng = OwnedRNG({s: _Scripted() for s in OwnedRNG.SITES}) if owned else None
@@ -1111,6 +1127,8 @@ def _init_forms(ctx, kind, name):
     # bare scalars (not wrapped in a tuple): cast_state and the generators' documentation accept them, and every
     # single-series instrument passes init_state through unchanged.  A zero initial state (falsy!) is admissible
     # for the series that are not exponential-type prices.
+    if kind == "inst":
+        forms.append(("subclass", INIT_VALUES[gen][0]))
     single = len(INIT_VALUES[gen][0]) == 1
     if single and (kind == "inst" or SC.GENERATORS[gen]["bare"]):
         forms.append(("bare", INIT_VALUES[gen][0]))
@@ -1133,9 +1151,42 @@ def _quick_tree(J, pi, form, values, default, dtype, n_steps, depth, init_values
         return False      # large joint alphabets: depth 2 only on the main rows
     if n_steps == 7:
         return pi < 2 and form in ("default", "tuple") and first_value and dtype != "bfloat16"
-    if form in ("int", "tensor64", "bare", "bare_int", "bare_tensor"):
+    if form in ("int", "tensor64", "bare", "bare_int", "bare_tensor", "subclass"):
         return pi == 0 and n_steps == (3 if J < 75 else 2)
     return True
+
+
+# long grids / fast mean reversion: kappa*T = 100 (251 daily steps), 800 (2001 steps) and 100 (kappa=5 over 20 years);
+# answers of the depth-2 tree repeat cyclically over the whole horizon.  (generator, parameters, n_steps, depth, tier)
+LONG_GRIDS = [
+    ("vasicek", {"kappa": 100.0}, 251, 2, "quick"), ("vasicek", {"kappa": 100.0}, 2001, 2, "quick"),
+    ("vasicek", {"kappa": 5.0}, 5001, 2, "thorough"),
+    ("cir", {"kappa": 100.0}, 251, 2, "quick"), ("cir", {"kappa": 100.0}, 2001, 1, "thorough"),
+    ("heston", {"kappa": 100.0}, 251, 1, "quick"), ("heston", {"kappa": 100.0}, 2001, 1, "thorough"),
+    ("brownian", {}, 2001, 2, "quick"), ("geometric_brownian", {}, 2001, 2, "quick"),
+    ("local_volatility", {"sigma_fn": "const"}, 501, 2, "quick"),
+    ("merton_jump", {}, 501, 1, "thorough"),
+    # (no long Kou grid: 500 repetitions of "6 jumps of 40 mean sizes" leave the range of float64 itself, and
+    # float64 has no wider twin to judge the range against)
+]
+
+
+def _horizon_ok(k, dt):
+    return math.ceil(k * dt / dt + 1) == k + 1
+
+
+def _blocks_long(ctx):
+    for gen, params, n_steps, depth, tier in LONG_GRIDS:
+        if tier == "thorough" and ctx.quick:
+            continue
+        targets = [("gen", gen)] + [("inst", n) for n, sp in SC.INSTRUMENTS.items() if sp["gen"] == gen]
+        for kind, name in targets:
+            if kind == "inst" and not _horizon_ok(n_steps - 1, params.get("dt", 1 / 250)):
+                continue
+            for dtype in ([None, "float64"] if (ctx.quick and n_steps > 1000) else
+                          [None, "float64", "float16", "bfloat16"]):
+                yield {"kind": kind, "name": name, "params": params, "init": {"form": "default", "values": None},
+                       "dtype": dtype, "default": "float32", "n_steps": n_steps, "depth": depth}
 
 
 EXTRA_NORMALS = [2.0, -2.0, 4.0, -4.0, 0.5, -0.5, 16.0, -16.0]
@@ -1203,7 +1254,7 @@ def _blocks_engine(ctx):
         inits = [("default", None)] + ([("tuple", INIT_VALUES[gen][0])] if ctx.thorough else [])
         for engine in ENGINES:
             for default in (("float32",) if ctx.quick else ("float32", "float64")):
-                for dtype in dtypes:
+                for dtype in (dtypes + ["float16"] if (ctx.quick and engine == "sobol_default") else dtypes):
                     for form, values in inits:
                         for n_paths in (1, 2, 3, 5):
                             for n_steps in (1, 2, 3):
@@ -1252,7 +1303,8 @@ def run(ctx):
     ctx.assume("half precision: only torch's '\"kernel\" not implemented for Half/BFloat16' errors are exempted "
                "(counted as unsupported_half_precision); every other exception is a violation")
     ctx.assume("time_horizon = k*dt with k*dt/dt == k exactly (grid rounding is C13's subject)")
-    tree_blocks = list(_blocks_tree(ctx))
+    tree_blocks = list(_blocks_tree(ctx)) + list(_blocks_long(ctx))
+    ctx.alphabet("long grids (generator, parameters, n_steps, depth, tier)", LONG_GRIDS)
     shape_blocks = list(_blocks_shape(ctx))
     resim_blocks = list(_blocks_resim(ctx))
     engine_blocks = list(_blocks_engine(ctx))
